@@ -43,6 +43,9 @@ pub enum Act {
     /// the plural adders handed a vector of one element (reaches the size bound from one below it)
     AddIns1(u8),
     AddOuts1(u8),
+    /// overwrite ANOTHER live object with the current one through Clone::clone_from and continue on that object:
+    /// 0 = a freshly created empty transaction, 1 = a different transaction whose three cache slots are filled
+    CloneInto(u8),
     /// replace the (still empty) object by one obtained through another constructor: 0 = parsed from a non-canonical
     /// wire encoding, 1 = JSON round trip, 2 = compact (CBOR) round trip, 3 = from_hex
     Load(u8),
@@ -182,6 +185,7 @@ fn act_kind(a: &Act) -> &'static str {
         Act::AddOuts(..) => "add_outputs",
         Act::AddIns1(..) => "add_inputs",
         Act::AddOuts1(..) => "add_outputs",
+        Act::CloneInto(..) => "clone_from",
     }
 }
 
@@ -246,6 +250,16 @@ fn apply(tx: &mut Transaction, a: &Act) -> Option<String> {
         Act::AddOuts(a, b) => tx.add_outputs(vec![operand_out(*a), operand_out(*b)]),
         Act::AddIns1(a) => tx.add_inputs(vec![operand_in(*a)]),
         Act::AddOuts1(a) => tx.add_outputs(vec![operand_out(*a)]),
+        Act::CloneInto(k) => {
+            let mut dest = Transaction::new(9, 9);
+            if *k == 1 {
+                dest.add_input(&operand_in(1));
+                dest.add_output(&operand_out(1));
+                let _ = dest.sighash_preimage(SigHash::InputsOutputs, 0, &subscript(), VALUE);
+            }
+            dest.clone_from(tx);
+            *tx = dest;
+        }
         Act::Load(k) => match loaded(*k) {
             Some(t) => *tx = t,
             None => return Some(format!("C04/action=load/source={}/kind=constructor-refuses", k)),
@@ -411,6 +425,8 @@ impl Model for TxModel {
             }
         }
         out.push(Act::CloneAndContinue);
+        out.push(Act::CloneInto(0));
+        out.push(Act::CloneInto(1));
     }
 
     fn next_state(&self, last: &St, a: Act) -> Option<St> {
